@@ -168,7 +168,8 @@ def copyEntries (cfg : GenCfg) (mk mv : Node) (lks lvs rks rvs : List Val) : Cop
            | _ => if cfg.copyNilElemPanics then .panic else .ok .nilptr 0)   -- nil pointer elements are dereferenced
         else copyN cfg mv false (zeroVal mv) rv
       valR.bind fun v s =>
-        let (lks', lvs') := mapSet lks lvs lk v
+        -- a pointer key of the source is never equal to a key already in the destination
+        let (lks', lvs') := if mk.ptr then (lks ++ [lk], lvs ++ [v]) else mapSet lks lvs lk v
         (copyEntries cfg mk mv lks' lvs' rks' rvs').bind fun m s' => .ok m (ks + s + s')
     | [] => .panic
 termination_by structural rvs
@@ -218,8 +219,13 @@ def copySrcOf : Form → RootX
   | .untypedNil | .foreign => .early
 
 /-- `Copy(x)`: CopyTo into a zero value with a buffer of `countBytes`. -/
-def copyM (cfg : GenCfg) (n : Node) (f : Form) (r : Val) : CopyOut :=
+def copySrcOfC (cfg : GenCfg) (f : Form) : RootX :=
   match copySrcOf f with
+  | .panic | .nilX => if cfg.nilRootPanics then .panic else .early
+  | x => x
+
+def copyM (cfg : GenCfg) (n : Node) (f : Form) (r : Val) : CopyOut :=
+  match copySrcOfC cfg f with
   | .early => .unsupported
   | .panic | .nilX => .panic
   | .ok =>
@@ -229,7 +235,7 @@ def copyM (cfg : GenCfg) (n : Node) (f : Form) (r : Val) : CopyOut :=
 
 /-- `CopyTo(src, dst, buf)` with destination value `l` reached through form `fd`. -/
 def copyToM (cfg : GenCfg) (n : Node) (fs fd : Form) (r l : Val) : CopyOut :=
-  match copySrcOf fs with
+  match copySrcOfC cfg fs with
   | .early => .unsupported
   | .panic | .nilX => .panic
   | .ok =>
@@ -240,6 +246,6 @@ def copyToM (cfg : GenCfg) (n : Node) (fs fd : Form) (r l : Val) : CopyOut :=
       (match copyN cfg n true l r with
        | .ok v s => .ok v s
        | .panic => .panic)
-    | _ => .panic
+    | _ => if cfg.nilRootPanics then .panic else .unsupported
 
 end Inspector
